@@ -152,12 +152,15 @@ ParserAt(l)    == Conv(l).at
 PE_linenum(stored) == stored + 1
 \* reportErrors: lineno_offset = (err.linenum() or 1) - 1
 ReportErrorsOffset(stored) == (IF PE_linenum(stored) = 0 THEN 1 ELSE PE_linenum(stored)) - 1
+\* TRUE while the tree has the deviation (known finding rst-markup-line-off-by-one); flip to FALSE once
+\* proposed_fixes/C16-rst-markup-line-off-by-one.diff is applied, so that model drift stays 0
+RstLineNotConverted == TRUE
 \* the number each path hands to Documentable.report as lineno_offset
 Offset(l) ==
   CASE l.prob = "markup" /\ l.fmt = "epytext" -> ReportErrorsOffset(ParserFirst(l))          \* epytext.py: StructuringError/ColorizingError(.., token.startline)
     \* restructuredtext.py:187-191  linenum = error.get('line'); ParseError(msg, linenum, ..): the 1-based docutils
     \* line is stored where a 0-based one is expected                                          (deviation RstLineNotConverted)
-    [] l.prob = "markup" /\ RstFamily(l)       -> ReportErrorsOffset(ParserFirst(l) + 1)
+    [] l.prob = "markup" /\ RstFamily(l)       -> ReportErrorsOffset(ParserFirst(l) + (IF RstLineNotConverted THEN 1 ELSE 0))
     [] l.prob = "xref" /\ l.fmt = "epytext"    -> ParserFirst(l)                               \* epytext.py to_node: lineno attr of the link = startline
     [] l.prob = "xref" /\ RstFamily(l)         -> ParserAt(l)                                  \* epydoc/docutils.py:108-146 get_lineno
     [] l.prob \in {"unkfield", "param"} /\ l.fmt = "epytext" -> ParserFirst(l)                \* Field(.., lineno) ; Field.report
